@@ -178,7 +178,10 @@ where
     loop {
         let src = reader.fill_buf()?;
 
-        if is_eol || src.is_empty() || src[0] == DEFINITION_PREFIX {
+        // A definition starts at the beginning of a line only.
+        let is_definition = bytes_read == 0 && src.first() == Some(&DEFINITION_PREFIX);
+
+        if is_eol || src.is_empty() || is_definition {
             break;
         }
 
@@ -361,6 +364,8 @@ mod tests {
         t(b"AC\rGT\n", (6, 5))?;
         t(b"AC\r\r\n", (5, 3))?;
         t(b"ACGT\r", (5, 4))?;
+        t(b"AC>GT\n", (6, 5))?;
+        t(b">sq1\n", (0, 0))?;
 
         Ok(())
     }
